@@ -49,8 +49,12 @@ type Run struct {
 }
 
 func NewRun(P *Prog, prop, tier string) *Run {
-	return &Run{P: P, Prop: prop, Tier: tier, Deep: tier == "thorough", RuleText: map[string]string{},
+	r := &Run{P: P, Prop: prop, Tier: tier, Deep: tier == "thorough", RuleText: map[string]string{},
 		floors: map[string]int{}, counts: map[string]int{}, Stats: map[string]int{}, Extra: map[string]interface{}{}, Anchors: map[*ssa.Function]bool{}}
+	if len(P.Renamed) > 0 {
+		r.Extra["renamed_functions"] = P.Renamed // current name -> name on the pinned tree (analysed under the pinned name)
+	}
+	return r
 }
 
 // Rule declares a rule: its text (goes to the evidence) and the number of
